@@ -106,6 +106,9 @@ func c19() {
 			if sup {
 				run.Violation("stub-reports-supported", name+": Supported() is true on a non-Linux target", map[string]any{"check": "C19", "target": name})
 			}
+			if supAfter, _ := m["supported_after_loads"].(bool); supAfter {
+				run.Violation("stub-reports-supported", name+": Supported() is true on a non-Linux target once LoadFilter has been called", map[string]any{"check": "C19", "target": name})
+			}
 			for _, k := range []string{"setnonewprivs_error", "loadfilter_error"} {
 				if fmt.Sprint(m[k]) != "" {
 					run.Count("stub_returns_error:"+k, 1) // documented as 'never returns an error'; not part of the property
